@@ -363,6 +363,15 @@ def run_switch(groups, state, env):
 ACTION_RE = re.compile(r'find_attribute \(|introspectable_prelude \(|state_switch \(|g_assert \(ctx->state')
 
 
+OWN_TEST_RE = re.compile(r'introspectable = find_attribute \("introspectable", attribute_names, attribute_values\);\s*'
+                         r'if \(introspectable && atoi \(introspectable\) == 0\)\s*\{\s*state_switch \(ctx, STATE_PASSTHROUGH\);\s*'
+                         r'return TRUE;\s*\}')
+
+
+def norm(text):
+    return re.sub(r'\s+', ' ', text).strip()
+
+
 class Handler(object):
     """guard + effects of one start_* function"""
 
@@ -395,7 +404,17 @@ class Handler(object):
         pm = re.search(r'introspectable_prelude \(context, attribute_names, attribute_values, ctx, (\w+)\)', body)
         if pm:
             self.prelude = pm.group(1)
-        self.switches = re.findall(r'state_switch \(ctx, (\w+)\)', body)
+        # a hand-written test of the introspectable attribute alone (no introspectable_prelude, shadowed-by not looked at):
+        #   introspectable = find_attribute ("introspectable", ...);
+        #   if (introspectable && atoi (introspectable) == 0) { state_switch (ctx, STATE_PASSTHROUGH); return TRUE; }
+        self.own_test = None
+        om = OWN_TEST_RE.search(body)
+        if om:
+            self.own_test = [norm(x) for x in re.split(r'[;{}]', om.group(0)) if norm(x)]
+            body_wo = body[:om.start()] + body[om.end():]
+        else:
+            body_wo = body
+        self.switches = re.findall(r'state_switch \(ctx, (\w+)\)', body_wo)
         self.push = 'push_node' in body
         self.push_cond = None
         cm = re.search(r'if \(prev_state == STATE_(\w+)\)\s*\{[^}]*push_node', body, re.S)
@@ -813,6 +832,15 @@ def main():
                  and not x.startswith('GIrNode') and not x.startswith('GList')]
         helpers.append((fn_, stmts))
     pm = re.search(r'if \(ctx->state == STATE_PASSTHROUGH\)\s*\{([^}]*)\}', seh)
+    own_test = sorted(n for n, h in handlers.items() if h.own_test)
+    for n in own_test:
+        if handlers[n].prelude:
+            shape('%s has both introspectable_prelude and a hand-written introspectable test' % n)
+        helpers.append((n + ':own-introspectable-test', handlers[n].own_test))
+    # any other state_switch to PASSTHROUGH inside a start_* function must be unconditional (start_instance_parameter)
+    for n, h in handlers.items():
+        if 'STATE_PASSTHROUGH' in h.switches and len([x for x in h.switches if x.startswith('STATE_')]) != 1:
+            shape('%s: a conditional switch to STATE_PASSTHROUGH the scan does not understand' % n)
     helpers.append(('start_element_handler:passthrough', [norm(x) for x in (pm.group(1).split(';') if pm else []) if norm(x)]))
 
     # regular rows of end_element_handler: stay:x* require:a|b [module=NULL] [pop] switch:S
@@ -870,6 +898,10 @@ def c15CNodeKind : List (String × String) := %s
 /-- the states in which start_function records in_embedded_state (a callback inside a field) -/
 def c15CEmbeddedStates : List String := %s
 
+/-- handlers that test the introspectable attribute by hand (atoi == 0 → STATE_PASSTHROUGH, return) instead of
+    running introspectable_prelude; shadowed-by is not looked at -/
+def c15COwnIntroTest : List String := %s
+
 /-- end_element_handler: per group of `case STATE_x:` labels the sequence of things it does
     (stay:<element> = ignore that end tag, require:<names>, pop, switch:<STATE>|prev|embedded, ...) -/
 def c15CEnd : List (List String × List String) := [
@@ -923,6 +955,7 @@ end GIVerif.Gen
        ',\n  '.join(fetched_rows), ',\n  '.join(lit_rows),
        lean_list(['(%s, %s)' % (lean_str(a), lean_str(k)) for a, k in node_kinds]),
        lean_list([lean_str(x) for x in embedded]),
+       lean_list([lean_str(x) for x in own_test]),
        ',\n  '.join('(%s, %s)' % (lean_list([lean_str(x) for x in names]), lean_list([lean_str(x) for x in toks]))
                     for names, toks in ends),
        ',\n  '.join('(%s, %s, %s, %s, %s)' % (lean_str(st), lean_list([lean_str(x) for x in stays]),
@@ -969,6 +1002,7 @@ def c15CFetched : List (String × String) := []
 def c15CLiterals : List (String × String × String × Bool) := []
 def c15CNodeKind : List (String × String) := []
 def c15CEmbeddedStates : List String := []
+def c15COwnIntroTest : List String := []
 def c15CEnd : List (List String × List String) := []
 def c15CEndSimple : List (String × List String × List String × Bool × String) := []
 def c15CEndOther : List (List String × List String) := []
